@@ -30,6 +30,7 @@ import (
 	"github.com/streamingfast/substreams/orchestrator/scheduler"
 	"github.com/streamingfast/substreams/orchestrator/stage"
 	"github.com/streamingfast/substreams/orchestrator/work"
+	pbindex "github.com/streamingfast/substreams/pb/sf/substreams/index/v1"
 	pbsubstreamsrpc "github.com/streamingfast/substreams/pb/sf/substreams/rpc/v2"
 	pbsubstreams "github.com/streamingfast/substreams/pb/sf/substreams/v1"
 	pbsubstreamstest "github.com/streamingfast/substreams/pb/sf/substreams/v1/test"
@@ -41,6 +42,7 @@ import (
 	"github.com/streamingfast/substreams/sqe"
 	"github.com/streamingfast/substreams/storage/store"
 	"go.uber.org/zap"
+	"google.golang.org/protobuf/proto"
 	"google.golang.org/protobuf/types/known/anypb"
 	"google.golang.org/protobuf/types/known/timestamppb"
 )
@@ -364,13 +366,14 @@ type runCfg struct {
 }
 
 type respRec struct {
-	Kind    string `json:"kind"` // data undo session
-	Num     uint64 `json:"num"`
-	ID      string `json:"id"`
-	Payload []int  `json:"payload"` // [] empty, [v] value
-	CurNum  uint64 `json:"curnum"`
-	CurID   string `json:"curid"`
-	Final   uint64 `json:"final"`
+	Kind    string   `json:"kind"` // data undo session
+	Num     uint64   `json:"num"`
+	ID      string   `json:"id"`
+	Payload []int    `json:"payload"` // [] empty, [v] value
+	Keys    []string `json:"keys"`    // output of a block-index module requested as output module: its keys
+	CurNum  uint64   `json:"curnum"`
+	CurID   string   `json:"curid"`
+	Final   uint64   `json:"final"`
 	cursor  string
 	Unparse bool `json:"unparsed"`
 }
@@ -601,13 +604,22 @@ func runTier1(env *sysEnv, cfg runCfg, cursor string, traceSched bool) (obs runO
 		switch m := r.Message.(type) {
 		case *pbsubstreamsrpc.Response_BlockScopedData:
 			d := m.BlockScopedData
-			rec := respRec{Kind: "data", Num: d.Clock.Number, ID: d.Clock.Id, Payload: []int{}, Final: d.FinalBlockHeight, cursor: d.Cursor}
+			rec := respRec{Kind: "data", Num: d.Clock.Number, ID: d.Clock.Id, Payload: []int{}, Keys: []string{}, Final: d.FinalBlockHeight, cursor: d.Cursor}
+			rec.Keys = []string{}
 			if d.Output != nil && d.Output.MapOutput != nil && len(d.Output.MapOutput.Value) > 0 {
-				v, err := strconv.ParseInt(string(d.Output.MapOutput.Value), 10, 64)
-				if err != nil {
-					rec.Unparse = true
+				if cfg.Out == "idx" {
+					ks := &pbindex.Keys{}
+					if err := proto.Unmarshal(d.Output.MapOutput.Value, ks); err != nil {
+						rec.Unparse = true
+					}
+					rec.Keys = append(rec.Keys, ks.Keys...)
+				} else {
+					v, err := strconv.ParseInt(string(d.Output.MapOutput.Value), 10, 64)
+					if err != nil {
+						rec.Unparse = true
+					}
+					rec.Payload = []int{int(v)}
 				}
-				rec.Payload = []int{int(v)}
 			}
 			if c, err := bstream.CursorFromOpaque(d.Cursor); err == nil {
 				rec.CurNum, rec.CurID = c.Block.Num(), c.Block.ID()
@@ -617,9 +629,9 @@ func runTier1(env *sysEnv, cfg runCfg, cursor string, traceSched bool) (obs runO
 			obs.Resp = append(obs.Resp, rec)
 		case *pbsubstreamsrpc.Response_BlockUndoSignal:
 			u := m.BlockUndoSignal
-			obs.Resp = append(obs.Resp, respRec{Kind: "undo", Num: u.LastValidBlock.Number, ID: u.LastValidBlock.Id, Payload: []int{}})
+			obs.Resp = append(obs.Resp, respRec{Kind: "undo", Num: u.LastValidBlock.Number, ID: u.LastValidBlock.Id, Payload: []int{}, Keys: []string{}})
 		case *pbsubstreamsrpc.Response_Session:
-			obs.Resp = append(obs.Resp, respRec{Kind: "session", Payload: []int{}})
+			obs.Resp = append(obs.Resp, respRec{Kind: "session", Payload: []int{}, Keys: []string{}})
 		}
 		return nil
 	}
@@ -895,7 +907,7 @@ func runSystem(a *args) error {
 					// another output module over the same cache directory (the graph, its stages and the files needed differ)
 					var maps []sysMod
 					for _, m := range prog {
-						if m.Kind == "map" && m.Name != "out" {
+						if (m.Kind == "map" || m.Kind == "index") && m.Name != "out" {
 							maps = append(maps, m)
 						}
 					}
@@ -1386,7 +1398,7 @@ func runForks(a *args, r *rand.Rand, env *sysEnv, seg uint64) {
 		switch m := rr.Message.(type) {
 		case *pbsubstreamsrpc.Response_BlockScopedData:
 			d := m.BlockScopedData
-			rec := respRec{Kind: "data", Num: d.Clock.Number, ID: d.Clock.Id, Payload: []int{}, Final: d.FinalBlockHeight}
+			rec := respRec{Kind: "data", Num: d.Clock.Number, ID: d.Clock.Id, Payload: []int{}, Keys: []string{}, Final: d.FinalBlockHeight}
 			if d.Output != nil && d.Output.MapOutput != nil && len(d.Output.MapOutput.Value) > 0 {
 				v, err := strconv.ParseInt(string(d.Output.MapOutput.Value), 10, 64)
 				rec.Unparse = err != nil
@@ -1398,7 +1410,7 @@ func runForks(a *args, r *rand.Rand, env *sysEnv, seg uint64) {
 			obs.Resp = append(obs.Resp, rec)
 		case *pbsubstreamsrpc.Response_BlockUndoSignal:
 			u := m.BlockUndoSignal
-			obs.Resp = append(obs.Resp, respRec{Kind: "undo", Num: u.LastValidBlock.Number, ID: u.LastValidBlock.Id, Payload: []int{}})
+			obs.Resp = append(obs.Resp, respRec{Kind: "undo", Num: u.LastValidBlock.Number, ID: u.LastValidBlock.Id, Payload: []int{}, Keys: []string{}})
 		}
 		return nil
 	}
